@@ -409,7 +409,7 @@ def run(ctx):
                        "APIs registered on the same root with identical histories, every object ever used is probed "
                        "after every mutation; non-trivial = some call observed through either API")
     rnd = random.Random(ctx.seed)
-    n, maxmut = (300, 7) if ctx.tier == "quick" else (5000, 12)
+    n, maxmut = (300, 7) if ctx.tier == "quick" else (6000, 12)
     if ctx.replay:
         cases = [json.load(open(ctx.replay))["replay"]["case"]]
     else:
